@@ -580,7 +580,7 @@ type isoResult struct {
 }
 
 // runIsolated runs case i in a child process (this binary with C14_CHILD set). A crash without
-// any ownership violation reported by the tracker is retried once: stopping a router whose BFD
+// any ownership violation reported by the tracker is retried (up to 3 times): stopping a router whose BFD
 // sessions transmit is inherently racy (udpConnection.stop closes the send queue before the
 // sessions are stopped) although the runner waits for a quiet moment.
 func runIsolated(i int) *isoResult {
@@ -590,7 +590,7 @@ func runIsolated(i int) *isoResult {
 		r.Crash = err.Error()
 		return r
 	}
-	for attempt := 0; attempt < 2; attempt++ {
+	for attempt := 0; attempt < 4; attempt++ {
 		dir, err := os.MkdirTemp("", "c14-")
 		if err != nil {
 			r.Crash = err.Error()
